@@ -25,6 +25,7 @@ import (
 	meta2 "github.com/openGemini/openGemini/lib/util/lifted/influx/meta"
 	proto2 "github.com/openGemini/openGemini/lib/util/lifted/influx/meta/proto"
 	"github.com/openGemini/openGemini/lib/util/lifted/protobuf/proto"
+	"github.com/openGemini/openGemini/lib/util/lifted/vm/protoparser/influx"
 	"github.com/openGemini/openGemini/verifsim/core"
 )
 
@@ -182,6 +183,10 @@ type vwRun struct {
 	fault   bool
 	hdig    []string
 	everProb map[string]bool
+	// mixEver: policies ("db\x00rp", map keys) whose measurements have (had) different sharding
+	// types on the reference: "versions" = two versions of one measurement name differ (re-created
+	// after mark-delete, the route the unchanged tree admits), "names" = only different names differ.
+	mixEver map[string]string
 }
 
 func (run *vwRun) judge(p string) bool { return run.env.Property == "" || run.env.Property == p }
@@ -332,6 +337,7 @@ func (run *vwRun) entry(oi int, op VWOp, cmd *proto2.Command) bool {
 		dA = pre
 	}
 	A.last = dA
+	run.noteMixed()
 	out.Stats["entries"]++
 	out.Stats["cmd_"+name]++
 	changed := len(vwDiffAll(pre, dA, "Term", "Index")) > 0
@@ -350,6 +356,9 @@ func (run *vwRun) entry(oi int, op VWOp, cmd *proto2.Command) bool {
 		}
 	}
 	out.Log("e%d op%d %s -> %s | %s", l.Index, oi, name, res, dA.hash())
+	if os.Getenv("VW_DEBUG") != "" {
+		fmt.Fprintf(os.Stderr, "VW_DEBUG e%d op%d %s -> %s\n", l.Index, oi, name, res)
+	}
 	where := fmt.Sprintf("entry %d (op %d: %s => %s) on replica A", l.Index, oi, op, name)
 
 	// ---- C16 on the reference
@@ -484,6 +493,11 @@ func (run *vwRun) flushRef(R *vwReplica, afterRestore bool, ref *vwDump) {
 				v := &core.Violation{Property: "C15", Kind: "apply_result_divergence",
 					Detail: fmt.Sprintf("entry %d (%s) on replica %s#%d%s returned %q, on the reference replica %q", buf[i].Index, names[i], R.name, R.inc, kindSuffix, res[i], run.results[first+i]),
 					Attrs:  map[string]string{"cmd": names[i]}}
+				if vwIsPanic(res[i]) && site != "" {
+					// only the replica panicked: where (the single Apply path knows the site)
+					v.Attrs["how"], v.Attrs["at"] = "panic", site
+					v.Detail += " (panic site: " + site + ")"
+				}
 				if !run.report(isoKind(v)) {
 					return
 				}
@@ -531,6 +545,9 @@ func (run *vwRun) flushRef(R *vwReplica, afterRestore bool, ref *vwDump) {
 			}
 		} else {
 			at["phase"] = "replay"
+		}
+		if mx := run.mixedAt(df.path); mx != "" {
+			at["mixed"] = mx
 		}
 		v := &core.Violation{Property: "C15", Kind: kind, Attrs: at,
 			Detail: fmt.Sprintf("after %s%s the catalogue differs from the reference replica at %s: reference=%s replica=%s; diff:%s",
@@ -1034,6 +1051,84 @@ func (run *vwRun) replay(R *vwReplica, where string) {
 	}
 }
 
+// vwPolicyMix: "" if all measurements of the policy (mark-deleted ones included: they stay
+// in the map until DropMeasurement) have one sharding type, "versions" if two versions of one
+// measurement name differ, "names" if only measurements of different names differ.
+func vwPolicyMix(rp *meta2.RetentionPolicyInfo) string {
+	all := map[string]bool{}
+	byName := map[string]map[string]bool{}
+	for _, m := range rp.Measurements {
+		if m == nil {
+			continue
+		}
+		t := ""
+		if len(m.ShardKeys) > 0 {
+			t = m.ShardKeys[0].Type
+		}
+		o := influx.GetOriginMstName(m.Name)
+		if byName[o] == nil {
+			byName[o] = map[string]bool{}
+		}
+		byName[o][t] = true
+		all[t] = true
+	}
+	if len(all) < 2 {
+		return ""
+	}
+	for _, ts := range byName {
+		if len(ts) > 1 {
+			return "versions"
+		}
+	}
+	return "names"
+}
+
+// noteMixed records which policies of the reference catalogue mix sharding types now.
+func (run *vwRun) noteMixed() {
+	d := run.A.data()
+	for dbn, db := range d.Databases {
+		if db == nil {
+			continue
+		}
+		for rpk, rp := range db.RetentionPolicies {
+			if rp == nil || len(rp.Measurements) < 2 {
+				continue
+			}
+			mx := vwPolicyMix(rp)
+			if mx == "" {
+				continue
+			}
+			if run.mixEver == nil {
+				run.mixEver = map[string]string{}
+			}
+			k := dbn + "\x00" + rpk
+			if run.mixEver[k] != "versions" {
+				run.mixEver[k] = mx
+			}
+		}
+	}
+}
+
+// mixedAt: the mix class of the policy a dump path lies in ("" if none / never mixed).
+func (run *vwRun) mixedAt(path string) string {
+	const p1, p2 = "Databases[", "].RetentionPolicies["
+	if !strings.HasPrefix(path, p1) {
+		return ""
+	}
+	rest := path[len(p1):]
+	i := strings.Index(rest, p2)
+	if i < 0 {
+		return ""
+	}
+	dbn := rest[:i]
+	rest = rest[i+len(p2):]
+	j := strings.Index(rest, "]")
+	if j < 0 {
+		return ""
+	}
+	return run.mixEver[dbn+"\x00"+rest[:j]]
+}
+
 func vwIsPanic(res string) bool { return len(res) > 6 && res[:6] == "panic:" }
 
 // applyOnly applies R.buf and compares the results (not the state) with the reference.
@@ -1042,9 +1137,10 @@ func (run *vwRun) applyOnly(R *vwReplica) {
 	R.buf = nil
 	first := int(buf[0].Index) - 2
 	var res []string
+	site1 := ""
 	if len(buf) == 1 {
-		r, _ := R.applyOne(buf[0])
-		res = []string{r}
+		r, s1 := R.applyOne(buf[0])
+		res, site1 = []string{r}, s1
 	} else {
 		var panicked bool
 		var site string
@@ -1074,6 +1170,10 @@ func (run *vwRun) applyOnly(R *vwReplica) {
 		if res[i] != run.results[first+i] && !(vwIsPanic(res[i]) && vwIsPanic(run.results[first+i])) {
 			v := &core.Violation{Property: "C15", Kind: "apply_result_divergence", Attrs: map[string]string{"cmd": run.names[first+i]},
 				Detail: fmt.Sprintf("entry %d (%s) on replica %s#%d while replaying the log suffix after a restore returned %q, on the reference replica %q", buf[i].Index, run.names[first+i], R.name, R.inc, res[i], run.results[first+i])}
+			if vwIsPanic(res[i]) && site1 != "" {
+				v.Attrs["how"], v.Attrs["at"] = "panic", site1
+				v.Detail += " (panic site: " + site1 + ")"
+			}
 			if len(R.iso) > 0 {
 				v.Kind = "snapshot_not_isolated"
 				v.Attrs = map[string]string{"field": R.iso[0]}
